@@ -279,7 +279,10 @@ class Executor(Exec):
             while True:
                 c = self.truth(self.eval(s.test, env))
                 if not isinstance(c, bool):
-                    raise OutOfSubset(f"while loop #{k} with symbolic guard needs an invariant")
+                    # no invariant given: the loop is executed path by path (each evaluation of the guard is a branch); exact as long
+                    # as every path leaves the loop within the unroll limit (a walk over a concrete chain of objects does) — a path
+                    # that does not is out of subset, never silently cut
+                    c = self.branch(c, label=f"while{k}#{n}")
                 if not c:
                     break
                 n += 1
@@ -404,8 +407,9 @@ class Executor(Exec):
         if isinstance(node.func, ast.Attribute):
             recv = node.func.value
             rname = recv.attr if isinstance(recv, ast.Attribute) else (recv.id if isinstance(recv, ast.Name) else "")
-            if rname in ("diagnostics", "diag", "_diagnostics") and node.func.attr in ("info", "warning"):
-                return None
+            if rname in ("diagnostics", "diag", "_diagnostics") and node.func.attr in ("info", "warning") \
+                    and f"ProgramDiagnostics.{node.func.attr}" not in getattr(self.contract, "uses", {}):
+                return None   # (a contract that says something about warnings binds ProgramDiagnostics.warning: then the call is executed)
             if rname in ("logging", "logger", "log", "_logger"):
                 return None
         # super().method(...): the method of the next class in the (single-inheritance) base chain, on the current receiver
@@ -870,6 +874,12 @@ class Executor(Exec):
             if isinstance(v, str) or (is_z3(v) and z3.is_string(v)):
                 return _Builtin("str")
             raise OutOfSubset("type()")
+        if name == "id":
+            # identity of an object as an uninterpreted integer (the object's handle). Two objects that may alias (lazy
+            # inputs) may have equal ids: an over-approximation
+            if len(args) == 1 and isinstance(args[0], SObj):
+                return self.handle(args[0])
+            raise OutOfSubset("id() of a non-object")
         if name == "hasattr":
             v, attr = args
             if isinstance(v, SObj) and isinstance(attr, str):
@@ -1080,6 +1090,9 @@ class Executor(Exec):
             if name == "get":
                 k = lift(args[0])
                 d = args[1] if len(args) > 1 else None
+                if d is not None and not isinstance(d, bool) and ((isinstance(d, int) and z3.is_int(z3.Select(recv.vals, k))) or (isinstance(d, str) and z3.is_string(z3.Select(recv.vals, k)))):
+                    # a scalar default of the value sort: one term instead of two paths
+                    return z3.If(z3.Select(recv.present, k), z3.Select(recv.vals, k), lift(d))
                 if self.branch(z3.Select(recv.present, k), label="get-present"):
                     return z3.Select(recv.vals, k)
                 return d
